@@ -45,7 +45,7 @@ func main() {
 	per := flag.Int("per", 3, "instances per goroutine and round")
 	flag.Parse()
 	r := core.NewRng(core.Mix(*seed, 0xace))
-	o := core.HistOpts{Shapes: []string{"doc", "flat", "nested"}, PageMin: 1, PageMax: 4, MinBatches: 1, MaxBatches: 3, MaxOps: 10, Profile: core.Benign}
+	o := core.HistOpts{Shapes: []string{"doc", "flat", "flatb", "nested", "nestedb", "person", "rep3"}, PageMin: 1, PageMax: 4, MinBatches: 1, MaxBatches: 3, MaxOps: 10, Profile: core.Benign}
 	bad := 0
 	total := 0
 	for round := 0; round < *rounds; round++ {
